@@ -521,13 +521,23 @@ def c01_retry_case(case, R, writes=None):
     rr = L.ref_read(model.mem)
     R.count("t2t_c01_retry_ref_reader_checked")
     mech = "length-zero-write" if not final else "message"
-    # discriminator (observed at the device): a WRITE of a failed attempt was executed by the tag while its acknowledge
-    # never reached the reader, and the completed assignment did not send a WRITE to that page (single-sector tags)
-    executed = set(c[1] for n, c, r in dev.log if n < n0 and c[:1] == b"\xA2" and isinstance(r, str) and r.startswith("rsp_lost"))
-    rewritten = set(c[1] for n, c, r in dev.log if n >= n0 and c[:1] == b"\xA2")
+    # discriminator (observed at the device and the tag): a WRITE of a failed attempt was executed by the tag while its
+    # acknowledge never reached the reader, and the completed assignment did not send a WRITE to that page.  The WRITE
+    # commands the tag received (with the sector selected at the tag) are those of the device log that were delivered
+    delivered = [(n, r) for n, c, r in dev.log if c[:1] == b"\xA2" and len(c) == 6 and
+                 not (isinstance(r, str) and (r.startswith("cmd_lost") or r == "dead"))]
+    executed, rewritten = set(), set()
+    if len(delivered) == len(model.write_cmds):
+        for (n, r), (sector, page, acked) in zip(delivered, model.write_cmds):
+            if n >= n0:
+                rewritten.add((sector, page))
+            elif acked and isinstance(r, str) and r.startswith("rsp_lost"):
+                executed.add((sector, page))
+    else:
+        R.inconc("t2t c01: WRITE log of the tag model and of the device differ")
     if executed:
         R.count("t2t_c01_retry_write_executed_but_not_acknowledged")
-    if executed - rewritten and len(image) <= 1024:
+    if executed - rewritten:
         R.count("t2t_c01_retry_unacknowledged_write_not_repeated")
         mech += "/unacknowledged-write-not-repeated"
     if rr.status != "ndef" or rr.message != final:
